@@ -193,7 +193,11 @@ def targets_of(module):
     return out
 
 
-def candidate_values(rnd, desc):
+def candidate_values(rnd, desc, text=False):
+    if desc["virtual"] and text:
+        small = [-300, -11, -2, -1, 0, 1, 2, 5, 9, 10, 20, 49, 99, 100, 127, 128, 200, 255]
+        vals = small + [x + d for x in rnd.sample(small, 6) for d in (2**32, -(2**32), 2**33, 2**16, 2**8)] + [2**31, -(2**31) - 1, 2**63 - 1, -(2**63), 2**64 - 1]
+        return rnd.sample(vals, 10)
     if desc["virtual"]:
         vals = [-(2**31) + 1, -300, -101, -11, -6, -2, -1, 0, 1, 2, 3, 5, 6, 9, 10, 11, 49, 50, 99, 100, 101, 127, 128, 200, 255, 256, 260, 355, 65535, 65536, 2**31 - 1]
         return rnd.sample(vals, 10)
@@ -212,6 +216,17 @@ def candidate_values(rnd, desc):
     vals.add(-(2**63))
     vals.add(2**64 - 1)
     vals = [v for v in vals if -(2**63) <= v <= 2**64 - 1]
+    if text:
+        # the text reader decodes the number itself: every number is a fair argument, in particular
+        # the ones congruent to an acceptable value modulo the width of the field's C++ type
+        vt = 8 if w <= 8 else 16 if w <= 16 else 32 if w <= 32 else 64
+        ok_vals = [v for v in vals if lo <= v <= hi]
+        for v in rnd.sample(ok_vals, min(4, len(ok_vals))):
+            for ww in (vt, 32, 64):
+                for x in (v + 2**ww, v - 2**ww):
+                    if -(2**63) <= x <= 2**64 - 1:
+                        vals.append(x)
+        return sorted(set(vals))
     if k in ("Bcd", "enum"):
         # BcdView / EnumView take their ValueType by value (not a template over the
         # integer type): arguments outside that type would be narrowed by the caller
@@ -338,7 +353,19 @@ template <class VT, class X> static typename std::enable_if<std::is_same<VT, boo
 template <class VT, class X> static typename std::enable_if<!std::is_enum<VT>::value && !std::is_same<VT, bool>::value, X>::type conv(X x) { return x; }
 """
     L = [pre] + L
+    L.append("static bool g_text = false;")
     L.append("template <class V> static void write_target(V v, int ti, const std::string &val) {")
+    L.append("  if (g_text) {")
+    L.append("    // the same write through the text reader: { a: { b: <number> } }")
+    L.append("    std::string t;")
+    L.append("    switch (ti) {")
+    for i, (path, desc) in enumerate(targets):
+        L.append("      case %d: t = \"%s\" + val + \"%s\"; break;" % (i, "".join("{ %s: " % p for p in path), " }" * len(path)))
+    L.append("      default: break;")
+    L.append("    }")
+    L.append("    bool ok = ::emboss::UpdateFromText(v, t); P(\"could\", std::string(\"text\")); P(\"ok\", ok);")
+    L.append("    return;")
+    L.append("  }")
     L.append("  switch (ti) {")
     for i, (path, desc) in enumerate(targets):
         acc = "v." + ".".join("%s()" % p for p in path)
@@ -393,7 +420,8 @@ template <int AL> static void run_writes(const std::vector<std::string> &tok) {
 """
 
 MAIN_EXTRA = r"""
-    if (tok[0] == "W") run_writes<0>(tok);
+    g_text = tok[0] == "WT";
+    if (tok[0] == "W" || tok[0] == "WT") run_writes<0>(tok);
     if (tok[0] == "X2") run_writes<2>(tok);
     if (tok[0] == "X4") run_writes<4>(tok);
     if (tok[0] == "X8") run_writes<8>(tok);
@@ -422,6 +450,8 @@ def build_case(case_seed, nbuf, seq_p):
     script = []
     expect = []
     total = foo.total
+    # targets the text route is used for: integers, whose text form is a plain number
+    text_targets = [i for i, (p, d) in enumerate(targets) if d["virtual"] or d["kind"] in ("UInt", "Int", "Bcd")]
     for _ in range(nbuf):
         n = total if rnd.random() < 0.75 else rnd.randrange(0, total + 1)
         buf = bytes(rnd.choice([0, 0xFF, 0x55, rnd.randrange(256), rnd.randrange(256)]) for _ in range(n))
@@ -429,10 +459,11 @@ def build_case(case_seed, nbuf, seq_p):
         seq = []
         cur = buf
         exp_steps = []
+        as_text = bool(text_targets) and rnd.random() < 0.25
         for _s in range(steps):
-            ti = rnd.randrange(len(targets))
+            ti = rnd.choice(text_targets) if as_text else rnd.randrange(len(targets))
             path, desc = targets[ti]
-            v = rnd.choice(candidate_values(rnd, desc))
+            v = rnd.choice(candidate_values(rnd, desc, text=as_text))
             res = ref_write(I, foo, cur, path, v)
             res["before"] = cur
             res["target"] = ".".join(path)
@@ -441,7 +472,10 @@ def build_case(case_seed, nbuf, seq_p):
             exp_steps.append(res)
             cur = res["buf"]
             seq.append((ti, v))
-        cmd = rnd.choice(["W", "W", "W", "X2", "X4", "X8"])
+        cmd = "WT" if as_text else rnd.choice(["W", "W", "W", "X2", "X4", "X8"])
+        if as_text:
+            for res in exp_steps:
+                res["text"] = True
         script.append("%s %s %d %s" % (cmd, buf.hex() or "-", len(seq), " ".join("%d %d" % (ti, v) for ti, v in seq)))
         expect.append(exp_steps)
     return {"rejected": False, "text": text, "header": r.header, "driver": src, "script": "\n".join(script) + "\n", "expect": expect, "module": m, "targets": targets, "writable": sorted(writable), "virtuals": sorted(expected_writable)}
@@ -488,7 +522,7 @@ def compare(case, outputs, stats):
             missing = w["could"] and not w["ok"]
             nt = (w["ok"] and changed) or (boundary and not w["could"]) or missing
             fc = field_class(d, None) + ("-enum-signed" if d["signed_enum"] else "")
-            stats.case([case["text"], w["target"], w["before"].hex(), w["value"]], nt, ["target:" + field_class(d, None), "accepted" if w["ok"] else ("refused-range" if not w["could"] else "refused-bytes"), "seq>1" if len(steps_want) > 1 else "single"], sample={"target": w["target"], "kind": d["kind"], "bits": d["bits"], "before": w["before"].hex(), "value": w["value"], "could": w["could"], "ok": w["ok"], "after": w["buf"].hex()})
+            stats.case([case["text"], w["target"], w["before"].hex(), w["value"]], nt, ["target:" + field_class(d, None), "route:text" if w.get("text") else "route:call", "accepted" if w["ok"] else ("refused-range" if not w["could"] else "refused-bytes"), "seq>1" if len(steps_want) > 1 else "single"], sample={"target": w["target"], "kind": d["kind"], "bits": d["bits"], "before": w["before"].hex(), "value": w["value"], "could": w["could"], "ok": w["ok"], "after": w["buf"].hex()})
             obs = {"could": "1" if w["could"] else "0", "ok": "1" if w["ok"] else "0", "buf": w["buf"].hex() or "-"}
             if w["ok"]:
                 obs["read"] = RI.fmt_value(None, w["read"]) if w["read"] is not None else None
@@ -496,14 +530,14 @@ def compare(case, outputs, stats):
                 stats.classes["virtual-argument-not-representable-in-parameter-type"] += 1
                 break  # nothing was called; later steps of the sequence start from a different buffer
             bad = None
-            for k in ("could", "ok", "buf"):
+            for k in (("ok", "buf") if w.get("text") else ("could", "ok", "buf")):
                 if g.get(k) != obs[k]:
                     bad = k
                     break
             if bad is None and w["ok"] and obs.get("read") is not None and g.get("read") != obs["read"]:
                 bad = "read"
             if bad:
-                sig = {"kind": "write-mismatch", "obs": bad, "field": "enum-signed" if d["signed_enum"] else field_class(d, None), "width": "64" if d["bits"] == 64 else ("<64" if not d["virtual"] else "-")}
+                sig = {"kind": "write-mismatch" if not w.get("text") else "text-write-mismatch", "obs": bad, "field": "enum-signed" if d["signed_enum"] else field_class(d, None), "width": "64" if d["bits"] == 64 else ("<64" if not d["virtual"] else "-")}
                 sk = vlib.h(sig)
                 per_sig[sk] = per_sig.get(sk, 0) + 1
             if bad and per_sig[sk] <= 3:  # capped per signature, so a recorded finding cannot use up the budget of another defect
